@@ -37,6 +37,16 @@
 (* reftag-wrong (lists other manifests than were last put).  With          *)
 (* cf.fallback = 0 nothing is demanded of that tag.                        *)
 (*                                                                         *)
+(* Housekeeping (kind gc = RegClient.Close, the garbage collection of a    *)
+(* layout): the statement gives it no effect on the map.  Demanded: the    *)
+(* tags are what they were, every manifest a tag points at is still       *)
+(* stored (nothing is demanded of an ambiguous tag, here as elsewhere),    *)
+(* nothing that was not stored appears (gc-lost-tagged, gc-extra).  Which *)
+(* of the unprotected manifests were swept is a fact the driver logs       *)
+(* (directory audit after the call, field list of the op event); in conc   *)
+(* mode the linearisation search tries every subset.  An error of Close is *)
+(* not a matter of the map: nothing is demanded of the result.             *)
+(*                                                                         *)
 (* Two modes (header field `mode`):                                        *)
 (*   seq   one operation at a time (event `op`), the model is              *)
 (*         deterministic, the first violated obligation is latched in      *)
@@ -173,6 +183,11 @@ RefTagBad(ft) ==
   ELSE IF refs # {} /\ (ft.res # "ok" \/ ToSet(ft.refs) # refs) THEN "reftag-wrong"
   ELSE ""
 
+\* the manifests a collection must keep
+Prot == MProt(tags) \cap mans
+GcBad(kept) == IF ~(Prot \subseteq kept) THEN "gc-lost-tagged"
+               ELSE IF ~(kept \subseteq mans) THEN "gc-extra" ELSE ""
+
 \* what head / get of one reference must report
 AnsOK(ref, v) == IF ref \in Amb THEN v \in amb[ref] \cup {NONE} ELSE v = MResolve(tags, mans, ref)
 
@@ -183,7 +198,11 @@ AnsOK(ref, v) == IF ref \in Amb THEN v \in amb[ref] \cup {NONE} ELSE v = MResolv
 \* "refused" for mutations, the reported digest name for head/get, lst the listing for list
 POp(k, t, m, res, lst) ==
   /\ cf.mode = "seq"
-  /\ IF k \in MutKinds
+  /\ IF k = "gc"
+     THEN /\ UNCHANGED <<tags, amb, refs>>
+          /\ mans' = ToSet(lst) \cap mans
+          /\ bad' = Latch(<<GcBad(ToSet(lst))>>)
+     ELSE IF k \in MutKinds
      THEN LET unsure == k = "tagdel" /\ t \in Amb
               pres == MPresent(tags, mans, k, t, m)
               done == res = "ok" IN
@@ -254,17 +273,14 @@ PCall(id, k, t, m) ==
      pend' = Put(p1, id, rec)
   /\ UNCHANGED <<tags, mans, amb, refs, cf, bad>>
 
-\* silent: the map-changing operation id takes effect now
-PLin(id) ==
-  /\ id \in DOMAIN pend
-  /\ pend[id].st = "called"
-  /\ pend[id].k \in MutKinds
+\* silent: the map-changing operation id takes effect now (X: the unprotected manifests a collection sweeps)
+PLinX(id, X) ==
   /\ LET o == pend[id]
          nt == MTags(tags, o.k, o.t, o.m)
-         nm == MMans(mans, o.k, o.m)
+         nm == IF o.k = "gc" THEN mans \ X ELSE MMans(mans, o.k, o.m)
          na == IF o.k \in {"push", "tagdel"} THEN [amb EXCEPT ![o.t] = {}] ELSE amb
          unsure == o.k = "tagdel" /\ o.t \in Amb
-         ex == IF MPresent(tags, mans, o.k, o.t, o.m) /\ ~unsure THEN "ok" ELSE "any" IN
+         ex == IF MPresent(tags, mans, o.k, o.t, o.m) /\ ~unsure /\ o.k # "gc" THEN "ok" ELSE "any" IN
      /\ tags' = nt /\ mans' = nm /\ amb' = na
      \* (an operation that fails in the end is linearised where the map has no target: pres = FALSE)
      /\ refs' = NewRefs(o.k, o.m, TRUE, MPresent(tags, mans, o.k, o.t, o.m))
@@ -278,12 +294,17 @@ PLin(id) ==
                                              !.seenL = @ \cup {MListed(nt)}]
                    ELSE pend[j]]
   /\ UNCHANGED <<cf, bad>>
+PLin(id) ==
+  /\ id \in DOMAIN pend
+  /\ pend[id].st = "called"
+  /\ pend[id].k \in MutKinds \cup {"gc"}
+  /\ \E X \in (IF pend[id].k = "gc" THEN SUBSET (mans \ Prot) ELSE {{}}) : PLinX(id, X)
 
 PRet(id, res, lst) ==
   /\ cf.mode = "conc"
   /\ id \in DOMAIN pend
   /\ LET o == pend[id] IN
-     IF o.k \in MutKinds THEN o.st = "lin" /\ (res = "ok" \/ (res = "refused" /\ o.exp = "any"))
+     IF o.k \in MutKinds \cup {"gc"} THEN o.st = "lin" /\ (res = "ok" \/ (res = "refused" /\ o.exp = "any"))
      ELSE IF o.k = "list"
           THEN LET S == ToSet(lst) IN
                /\ Len(lst) = Cardinality(S)
